@@ -183,4 +183,10 @@ def exclLegacyVarThenLiteral (k : RouterKind) (d : Doc) : Bool :=
 def exclLegacyURLForm (k : RouterKind) (d : Doc) (r : Req) : Bool :=
   k = .legacy && d.servers.any (fun s => isRelativeURL s.url = r.abs)
 
+/-- legacy router: `Servers.MatchURL` commits to the first server whose URL pattern matches; when the remaining path
+    then fits no template the other matching servers are never tried -/
+def exclLegacyFirstServer (k : RouterKind) (d : Doc) (r : Req) : Bool :=
+  k = .legacy &&
+  (d.servers.filter (fun s => (matchRawURL (s.url.length + 1) s.url (rawURL r) []).isSome)).length > 1
+
 end KinModel.Router
